@@ -92,7 +92,11 @@ Init ==
           infl |-> [t \in T |-> <<>>],     \* batches handed to `go send` goroutines that have not written yet
           sc |-> FALSE,             \* polling.shouldClose set (orderly close buffered until the next write / close timeout)
           scfn |-> FALSE,           \* .. and it carries socket.OnClose("forced close")
+          pfin |-> FALSE,           \* polling DoClose is inside fn() = socket.OnClose: p.OnClose() runs when that has returned
+          pcont |-> <<>>,           \* .. and it was the writer goroutine (shouldClose() inside p.send): the payload it writes afterwards
           disc |-> FALSE,           \* polling transport discarded
+          wdisc |-> FALSE,          \* stream transport discarded (Close(true)): its connection is closed without waiting for anything
+          wwait |-> FALSE,          \* the stream transport was closed with batches in flight: the connection closes behind them
           upgrading |-> FALSE, upgraded |-> FALSE,
           cand |-> "none",          \* none | attached | probed | dead
           reg |-> TRUE, count |-> 1,       \* client table entry and clientsCount
@@ -107,7 +111,9 @@ Init ==
            nclose |-> 0, reasons |-> <<>>, npolls |-> 0, npings |-> 0, stuck |-> 0,
            cut |-> 0,               \* batches with messages written to a connection that was already closed
            accepted |-> {},         \* messages accepted before a graceful Close (C12)
-           hard |-> FALSE]          \* Close(true) was called
+           hard |-> FALSE,          \* Close(true) was called
+           cclosed |-> FALSE,       \* the client has been sent a close packet: a conformant client does not poll any more
+           aborted |-> FALSE]       \* the client gave up a poll (it is not "a client that keeps reading" any more)
   /\ hist = <<>>
 
 ----------------------------------------------------------------------------
@@ -124,19 +130,36 @@ CloseEnter(x, reason) ==
 \* the transport's "close"/"error" events reach socket.OnClose only while the socket's listeners are attached
 TrEvent(x, t, reason) == IF x.att[t] THEN CloseEnter(x, reason) ELSE x
 
+\* polling.OnClose: (writable: close the pending poll with a noop) readyState closed, emit close
+PClosed(y) == LET c == IF y.wr["p"] THEN TrSend(y, "p", <<P("noop")>>) ELSE y
+              IN TrEvent([c EXCEPT !.trs["p"] = "closed", !.pfin = FALSE], "p", "transport close")
+\* polling.write of payload b: to the pending poll, into the void of an aborted one, or "polling write error"
+HasClose(b) == \E i \in 1..Len(b) : b[i].ty = "close"
+PWrite(x, b) == IF x.poll = "pending" THEN [s |-> [x EXCEPT !.poll = "none"], got |-> MsgsOf(b), ok |-> TRUE, cl |-> HasClose(b)]
+                ELSE IF x.poll = "gone" THEN [s |-> [x EXCEPT !.poll = "none"], got |-> <<>>, ok |-> TRUE, cl |-> FALSE]
+                ELSE [s |-> TrEvent(x, "p", "transport error"), got |-> <<>>, ok |-> FALSE, cl |-> FALSE]
+\* what the goroutine that was inside fn() of a polling DoClose does once socket.OnClose has returned
+PAfterFn(x) == IF ~x.pfin THEN [s |-> x, got |-> <<>>, cl |-> FALSE]
+               ELSE LET a == PClosed(x) IN
+                    IF a.pcont = <<>> THEN [s |-> a, got |-> <<>>, cl |-> FALSE]
+                    ELSE LET w == PWrite([a EXCEPT !.pcont = <<>>], a.pcont) IN [s |-> w.s, got |-> w.got, cl |-> w.cl]
+
 \* polling.DoClose / websocket.DoClose behind transport.Close(fn); fn = socket.OnClose("forced close") when withFn
 TrClose(x, t, withFn) ==
-    IF x.trs[t] \in {"closed", "none"} \/ (x.trs[t] = "closing" /\ ~(t = "p" /\ x.disc)) THEN x
+    \* (a transport that is closing can still be closed at once after Discard())
+    IF x.trs[t] \in {"closed", "none"} \/ (x.trs[t] = "closing" /\ ~(t = "p" /\ x.disc) /\ ~(t = "w" /\ x.wdisc)) THEN x
     ELSE IF t = "w"
     THEN \* `defer conn.Close(); fn()`: the connection is closed when fn (= socket.OnClose, all of it) has returned;
          \* a batch already handed to the writer goroutine races with that (WsWrite)
-         IF withFn /\ x.rs # "closed"
-         THEN CloseEnter([x EXCEPT !.trs["w"] = "closing"], "forced close")
-         ELSE TrEvent([x EXCEPT !.trs["w"] = "closed"], "w", "transport close")
-    ELSE LET onClose(y) == \* fn(); p.OnClose() -> (writable: noop) -> readyState closed, emit close
-                 LET b == IF withFn THEN CloseEnter(y, "forced close") ELSE y
-                     c == IF b.wr["p"] THEN TrSend(b, "p", <<P("noop")>>) ELSE b
-                 IN TrEvent([c EXCEPT !.trs["p"] = "closed"], "p", "transport close")
+         \* (since fix e351117 a batch in flight is written before the connection is closed, unless the transport was discarded)
+         LET y == [x EXCEPT !.wwait = x.infl["w"] # <<>> /\ ~x.wdisc /\ ~Dev("WsCloseCutsSend")] IN
+         IF withFn /\ y.rs # "closed"
+         THEN CloseEnter([y EXCEPT !.trs["w"] = "closing"], "forced close")
+         ELSE TrEvent([y EXCEPT !.trs["w"] = "closed"], "w", "transport close")
+    ELSE LET onClose(y) == \* fn(); p.OnClose()
+                 IF withFn /\ y.rs # "closed"
+                 THEN CloseEnter([y EXCEPT !.pfin = TRUE], "forced close")       \* p.OnClose() once socket.OnClose (all of it) has returned
+                 ELSE PClosed(y)
          IN IF x.wr["p"] THEN onClose(TrSend([x EXCEPT !.trs["p"] = "closing"], "p", <<P("close")>>))
             ELSE IF x.disc THEN onClose([x EXCEPT !.trs["p"] = "closing"])
             ELSE [x EXCEPT !.trs["p"] = "closing", !.sc = TRUE, !.scfn = withFn]
@@ -153,7 +176,9 @@ Took(x, y) == ~Locked(x) /\ y.fl # <<>>       \* FlushTake(x, k) = y took a batc
 
 \* socket.closeTransport(discard)
 CloseTransport(x, discard) ==
-    LET a == IF discard /\ x.cur = "p" THEN [x EXCEPT !.disc = TRUE] ELSE x IN TrClose(a, a.cur, TRUE)
+    LET a == IF discard /\ x.cur = "p" THEN [x EXCEPT !.disc = TRUE]
+             ELSE IF discard THEN [x EXCEPT !.wdisc = TRUE] ELSE x
+    IN TrClose(a, a.cur, TRUE)
 
 \* what the goroutine that called flush does next (rest of onPollRequest / of the upgrade branch of MaybeUpgrade)
 PollTail(x) ==
@@ -186,7 +211,9 @@ Flush(x, k) == LET y == FlushTake(x, k) IN IF Took(x, y) THEN y ELSE After(y, k)
 SendPacket(x, p) == IF x.rs = "open" THEN Flush([x EXCEPT !.wbuf = Append(@, p)], "none") ELSE x
 
 ----------------------------------------------------------------------------
-H(a) == hist' = Append(hist, a)
+\* with the feature "lastonly" the history is cut to the last action: the state graph (dumped by TLC without the VIEW) then
+\* carries on every state the action that produced it, which is what the transition-cover replay needs
+H(a) == hist' = IF "lastonly" \in Features THEN <<a>> ELSE Append(hist, a)
 
 (* application *)
 AppSend(m) ==
@@ -234,11 +261,12 @@ CloseMid(reason) ==
 \* .. third step: the candidate's close listener (registered last, at upgrade time) fails the upgrade; the buffer is cleared
 CloseFinish(reason) ==
     /\ reason \in s.mid
-    /\ LET a == [s EXCEPT !.mid = @ \ {reason}, !.wbuf = <<>>, !.trs["w"] = IF @ = "closing" THEN "closed" ELSE @] IN
-       s' = IF a.cand \in {"attached", "probed"}
-            THEN [a EXCEPT !.cand = "dead", !.upgrading = FALSE, !.trs["w"] = "closed"]
-            ELSE a
-    /\ UNCHANGED ob
+    /\ LET a == [s EXCEPT !.mid = @ \ {reason}, !.wbuf = <<>>, !.trs["w"] = IF @ = "closing" THEN "closed" ELSE @]
+           b == IF a.cand \in {"attached", "probed"}
+                THEN [a EXCEPT !.cand = "dead", !.upgrading = FALSE, !.trs["w"] = "closed"]
+                ELSE a
+           f == PAfterFn(b)          \* socket.OnClose returns: a polling DoClose that called it goes on
+       IN s' = f.s /\ ob' = [ob EXCEPT !.rcvd = @ \o f.got, !.cclosed = @ \/ f.cl]
     /\ H([a |-> "onclose.finish", reason |-> reason])
 
 \* without the windows the two steps are one (keeps the state space of the families that do not study them small)
@@ -248,15 +276,16 @@ CloseRest(reason) ==
            b == TrClose(a, a.cur, FALSE)
            c == IF b.reg THEN [b EXCEPT !.reg = FALSE, !.count = @ - 1] ELSE b
            d == [c EXCEPT !.wbuf = <<>>, !.trs["w"] = IF @ = "closing" THEN "closed" ELSE @]
-       IN s' = IF d.cand \in {"attached", "probed"} THEN [d EXCEPT !.cand = "dead", !.upgrading = FALSE, !.trs["w"] = "closed"] ELSE d
-    /\ ob' = [ob EXCEPT !.nclose = @ + 1, !.reasons = Append(@, reason)]
+           e == IF d.cand \in {"attached", "probed"} THEN [d EXCEPT !.cand = "dead", !.upgrading = FALSE, !.trs["w"] = "closed"] ELSE d
+           f == PAfterFn(e)
+       IN s' = f.s /\ ob' = [ob EXCEPT !.nclose = @ + 1, !.reasons = Append(@, reason), !.rcvd = @ \o f.got, !.cclosed = @ \/ f.cl]
     /\ H([a |-> "onclose.rest", reason |-> reason])
 
 ----------------------------------------------------------------------------
 (* polling transport *)
 \* the client opens a poll: onPollRequest
 CliPoll ==
-    /\ ob.npolls < MaxPolls /\ s.reg /\ s.cur = "p"
+    /\ ob.npolls < MaxPolls /\ s.reg /\ s.cur = "p" /\ ~ob.cclosed
     /\ ob' = [ob EXCEPT !.npolls = @ + 1,
                         !.stuck = IF s.poll = "none" /\ s.trs["p"] = "closed" /\ Dev("PollVsClose") THEN @ + 1 ELSE @]
     /\ IF s.poll # "none"
@@ -272,31 +301,25 @@ PollWrite(i) ==
     /\ i \in 1..Len(s.infl["p"])
     /\ LET b0 == s.infl["p"][i]
            a0 == [s EXCEPT !.infl["p"] = Remove(@, i)]
-           \* a buffered orderly close goes out with this payload: shouldClose() = clear timer; fn(); p.OnClose()
+           \* a buffered orderly close goes out with this payload: shouldClose() = clear timer; fn(); p.OnClose(), then the write
            b == IF a0.sc THEN Append(b0, P("close")) ELSE b0
-           a1 == IF a0.sc
-                 THEN LET c == [a0 EXCEPT !.sc = FALSE, !.scfn = FALSE]
-                          d == IF a0.scfn THEN CloseEnter(c, "forced close") ELSE c
-                      IN TrEvent([d EXCEPT !.trs["p"] = "closed"], "p", "transport close")
-                 ELSE a0
-       IN IF a1.poll = "pending"
-          THEN /\ s' = [a1 EXCEPT !.poll = "none"]
-               /\ ob' = [ob EXCEPT !.rcvd = @ \o MsgsOf(b)]
-               /\ H([a |-> "pollwrite", ok |-> TRUE, i |-> i])
-          ELSE IF a1.poll = "gone"
-          THEN /\ s' = [a1 EXCEPT !.poll = "none"]        \* written into the void
+           c == [a0 EXCEPT !.sc = FALSE, !.scfn = FALSE]
+       IN IF a0.sc /\ a0.scfn /\ a0.rs # "closed"
+          THEN \* the writer goroutine is now inside socket.OnClose; it goes on (p.OnClose, write) when that has returned
+               /\ s' = CloseEnter([c EXCEPT !.pfin = TRUE, !.pcont = b], "forced close")
                /\ UNCHANGED ob
                /\ H([a |-> "pollwrite", ok |-> TRUE, i |-> i])
-          ELSE /\ s' = TrEvent(a1, "p", "transport error")      \* "polling write error" (silenced once the socket let go)
-               /\ UNCHANGED ob
-               /\ H([a |-> "pollwrite", ok |-> FALSE, i |-> i])
+          ELSE LET a1 == IF a0.sc THEN PClosed(c) ELSE a0
+                   w == PWrite(a1, b)
+               IN /\ s' = w.s
+                  /\ ob' = [ob EXCEPT !.rcvd = @ \o w.got, !.cclosed = @ \/ w.cl]
+                  /\ H([a |-> "pollwrite", ok |-> w.ok, i |-> i])
 
 \* the close timeout of a buffered orderly close elapses
 CloseTimeoutFire ==
     /\ "ctimeout" \in Features /\ s.sc
-    /\ LET c == [s EXCEPT !.sc = FALSE, !.scfn = FALSE]
-           d == IF s.scfn THEN CloseEnter(c, "forced close") ELSE c
-       IN s' = TrEvent([d EXCEPT !.trs["p"] = "closed"], "p", "transport close")
+    /\ LET c == [s EXCEPT !.sc = FALSE, !.scfn = FALSE] IN
+       s' = IF s.scfn /\ c.rs # "closed" THEN CloseEnter([c EXCEPT !.pfin = TRUE], "forced close") ELSE PClosed(c)
     /\ UNCHANGED ob
     /\ H([a |-> "closetimeout"])
 
@@ -304,7 +327,7 @@ CloseTimeoutFire ==
 PollAbort ==
     /\ "abort" \in Features /\ s.poll = "pending" /\ s.reg
     /\ s' = TrEvent([s EXCEPT !.wr["p"] = FALSE, !.poll = "gone"], "p", "transport error")      \* the slot stays taken (p.req is only reset by a write)
-    /\ UNCHANGED ob
+    /\ ob' = [ob EXCEPT !.aborted = TRUE]
     /\ H([a |-> "poll.abort"])
 
 \* the client submits a message (data request, or a frame once upgraded)
@@ -329,8 +352,8 @@ PeerClose ==
 WsWrite ==
     /\ s.infl["w"] # <<>>
     /\ LET b == Head(s.infl["w"])
-           live == s.trs["w"] \in {"open", "closing"} \/ ~Dev("WsCloseCutsSend")
-           a == [s EXCEPT !.infl["w"] = Tail(@), !.wr["w"] = TRUE]
+           live == s.trs["w"] \in {"open", "closing"} \/ s.wwait
+           a == [s EXCEPT !.infl["w"] = Tail(@), !.wr["w"] = TRUE, !.wwait = s.wwait /\ Tail(s.infl["w"]) # <<>>]
        IN /\ s' = IF a.att["w"] THEN Flush(a, "none") ELSE a      \* drain, writable, ready -> socket.flush
           /\ ob' = IF live THEN [ob EXCEPT !.rcvd = @ \o MsgsOf(b)]
                    ELSE [ob EXCEPT !.cut = IF MsgsOf(b) # <<>> THEN @ + 1 ELSE @]
@@ -374,7 +397,7 @@ CandUpgrade ==
 \* the candidate fails (unexpected packet, connection lost, upgrade timeout): only the candidate is closed
 CandFail ==
     /\ s.cand \in {"attached", "probed"}
-    /\ s' = [s EXCEPT !.cand = "none", !.upgrading = FALSE, !.trs["w"] = "none", !.wr["w"] = FALSE, !.infl["w"] = <<>>]
+    /\ s' = [s EXCEPT !.cand = "none", !.upgrading = FALSE, !.trs["w"] = "none", !.wr["w"] = FALSE, !.infl["w"] = <<>>, !.wwait = FALSE]
     /\ UNCHANGED ob
     /\ H([a |-> "cand.fail"])
 
@@ -449,7 +472,7 @@ C12_PollReleased == (Quiet /\ s.rs = "closed" /\ ~s.sc) => (s.poll \in {"none", 
 C11_NoStuckPoll == ob.stuck = 0
 \* C12: whatever was accepted before a graceful Close has reached the client once the session is closed and quiet,
 \* unless something else ended the session first
-C12_BufferedFirst == (Quiet /\ s.rs = "closed" /\ ob.reasons = <<"forced close">> /\ ~ob.hard) => ob.accepted \subseteq SeqSet(ob.rcvd)
+C12_BufferedFirst == (Quiet /\ s.rs = "closed" /\ ob.reasons = <<"forced close">> /\ ~ob.hard /\ ~ob.aborted) => ob.accepted \subseteq SeqSet(ob.rcvd)
 \* C08: the transport changes only through CandUpgrade, at most once, never on a closed session
 C08_AtMostOnce == (s.cur = "w") => s.upgraded
 C08_FailureKeepsSession == (s.cand = "none" /\ ~s.upgraded /\ s.rs = "open") => ~s.upgrading
